@@ -11,12 +11,12 @@ RULE = (
     "respect one topological order (2^(k(k-1)/2) graphs) x a dangling Parent value 'ghost' on none or exactly one feature x every "
     "permutation of the k lines x, when some feature has several parents (quick: only for k <= 3), the Parent values written as one "
     "comma list or as a repeated key; the five ids contain an escaped comma (%2C), a colon ('autoincrement:n1'), a quote, an underscore "
-    "(SQL wildcard) and an escaped per-cent sign. For each import (real create_db, :memory:) every (feature, level in {None,1,2}, "
-    "featuretype in {None,'exon',('exon','mRNA')}, order_by in {None,'start',('seqid','start')}) query of children and parents (for k = "
-    "5 order_by is varied only with featuretype None) is compared with the two-level closure of the Parent lists (unordered as sets, "
-    "ordered by start); per feature and level the positional call form (id, level, featuretype, order_by, reverse) must equal the "
-    "keyword form; also children(Feature object), nested iteration (children inside a children loop), two interleaved result iterators "
-    "(zip), db['ghost'] must raise FeatureNotFoundError, stored ids, import must not raise, and "
+    "(SQL wildcard) next to a blank, and an escaped per-cent sign. For each import (real create_db, :memory:) every (feature, level in "
+    "{None,1,2}, featuretype in {None,'exon',('exon','mRNA')}, order_by in {None,'start',('seqid','start')}) query of children and "
+    "parents (for k = 5 order_by is varied only with featuretype None) is compared with the two-level closure of the Parent lists "
+    "(unordered as sets, ordered by start); per feature and level the positional call form (id, level, featuretype, order_by, reverse) "
+    "must equal the keyword form; also children(Feature object), nested iteration (children inside a children loop), two interleaved "
+    "result iterators (zip), db['ghost'] must raise FeatureNotFoundError, stored ids, import must not raise, and "
     "iter_by_parent_childs(featuretype='gene'). Part 'scale' (1 shard, 3 executions): one 7800-line file (600 genes x 2 mRNAs x 5 "
     "exons) in top-down, bottom-up and shuffled line order; relation counts per level (7200 / 6000) and children(level=2)/parents of "
     "three genes are checked. Non-trivial = the graph has a multi-parent node or a path of length >= 2 or a dangling value or the lines "
